@@ -332,7 +332,8 @@ def _compact(plan, rec):
     }
 
 
-CPU_BUDGET_S = 12   # CPU seconds one load of a <= 1 MiB file may burn (typical: milliseconds)
+CPU_BUDGET_S = 12   # CPU seconds one load of a <= 64 KiB file may burn (typical: milliseconds)
+BATCH_CPU_GUARD_S = 4
 WALL_GUARD_S = 3.0
 SLOW = {"seen": 0}  # per worker process: confirmed slow runs so far (only steers cost, never a verdict)
 
@@ -354,6 +355,16 @@ def _batch_child(emit, indices, force_steps=False):
         # cheap wall guard so that a hang costs seconds, not the batch watchdog; it is never a verdict:
         # the parent re-executes the run alone under the deterministic step clock
         signal.setitimer(signal.ITIMER_REAL, WALL_GUARD_S)
+        # per-run CPU guard for time spent inside one C call (which no Python-level handler can interrupt):
+        # the soft RLIMIT_CPU is re-armed before every run; SIGXCPU ends the batch, the parent then re-executes
+        # the run in progress alone under the full CPU budget, which is the verdict
+        try:
+            import resource
+
+            used = int(time.process_time()) + 1
+            resource.setrlimit(resource.RLIMIT_CPU, (used + BATCH_CPU_GUARD_S, resource.getrlimit(resource.RLIMIT_CPU)[1]))
+        except Exception:
+            pass
         try:
             rec = exec_image(p.image, p.name, p.fast_load, p.get_code, p.count_steps or force_steps, kind=p.kind)
         except _WallGuard:
@@ -1069,13 +1080,28 @@ def replay(path):
 
 def seeded_phase(nruns, workers, wall_cap, t0):
     shards = [(lo, min(nruns, lo + SHARD)) for lo in range(0, nruns, SHARD)]
+    if workers <= 1:
+        return merge([run_shard(sh) for sh in shards])
+    import multiprocessing
+    from concurrent.futures import ProcessPoolExecutor, as_completed
+
     aggs = []
-    wave = workers * 4
-    for w0 in range(0, len(shards), wave):
-        if time.time() - t0 > wall_cap:
-            core.log("[C11] wall cap reached after %d runs" % sum(a["runs"] for a in aggs))
-            break
-        aggs.extend(core.run_sharded(run_shard, shards[w0:w0 + wave], workers))
+    ctx = multiprocessing.get_context("fork")
+    with ProcessPoolExecutor(max_workers=workers, mp_context=ctx) as ex:
+        futs = [ex.submit(run_shard, sh) for sh in shards]
+        capped = False
+        for fut in as_completed(futs):
+            try:
+                aggs.append(fut.result())
+            except Exception as e:
+                if capped and fut.cancelled():
+                    continue
+                raise core.HarnessError("shard worker failed: %r" % (e,))
+            if not capped and time.time() - t0 > wall_cap:
+                capped = True
+                n_cancel = sum(1 for f in futs if f.cancel())
+                core.log("[C11] wall cap reached: %d shards not started" % n_cancel)
+    aggs = [a for a in aggs if a is not None]
     return merge(aggs)
 
 
